@@ -43,6 +43,12 @@ P = {
          "supported, and whose recorded version differs - and records them; by an abstraction function into a total map), C15_idempotent, "
          "C15_silent - closed; implementation driven through the frame_versions event and through real sensor-data frames.",
          "announcements naming known response/message kinds are outside the quantifier (handler raises TypeError, observation O1)."),
+ "C16": ("Theorem C16_all_patterns: for all 4^8 assignments of {never, attempt 1, 2, 3} to the eight generated set-up kinds, with and without "
+         "mixers, the set-up model is loaded within retries x timeout, lists every unanswered kind as failed, lists nothing else when product "
+         "information was answered (only the product-dependent kinds otherwise), transmits every unanswered request `retries` times and has the "
+         "data of every answered, non-failed kind - finite domain swept completely by vm_compute and lifted with forallb_forall (closed); real "
+         "EcoMAX.async_setup driven by a scripted controller with captured response frames under the virtual-time loop and compared.",
+         "virtual time stands for real time; retries/timeouts other than the defaults (3, 3.0 s) are not swept."),
  "C17": ("Theorems C17_inverse / C17_accept: for every number description of the generated tables and every raw value below 256^size, the displayed "
          "value exists and writing it back yields that raw value - complete kernel evaluation (vm_compute over PrimFloat, 65536 + 3x256 raw values of "
          "the 4 distinct scalings, lifted by forallb_forall; the bound is in the statement). Depends on the kernel float/int63 primitives only. "
